@@ -117,15 +117,54 @@ def tailGo : List Txt → Txt → Txt
 def chunks (doc : Txt) : List Txt := chunksGo (splitLines doc) []
 def tail (doc : Txt) : Txt := tailGo (splitLines doc) []
 
-/-- parse the chunks in order; stop at the first error, which is reported with its identifier;
-    no chunk at all (id 0) is reported as an error; text left after the last chunk is reported as an
-    error with the next identifier -/
+/-- the trees of a chunk: its first tree ends it (only white space follows the first ';' outside a comment) -/
+def singleTree (c : Txt) : Prop := (afterTree c false).all isNewickWs = true
+
+theorem afterTree_prefix (a bl : Txt) (ha : ∀ c ∈ a, c ≠ ';' ∧ c ≠ '[') : afterTree (a ++ ';' :: bl) false = bl := by
+  induction a with
+  | nil => simp [afterTree]
+  | cons c r ih =>
+    have hc := ha c (by simp)
+    have h1 : (c == '[') = false := by simpa using hc.2
+    have h2 : (c == ';') = false := by simpa using hc.1
+    simp only [List.cons_append, afterTree, Bool.false_eq_true, if_false, h1, h2]
+    exact ih (fun x hx => ha x (by simp [hx]))
+
+/-- a text `a;bl` with no ';' and no '[' in `a` and only white space in `bl` holds one tree -/
+theorem singleTree_of (a bl : Txt) (ha : ∀ c ∈ a, c ≠ ';' ∧ c ≠ '[') (hbl : ∀ c ∈ bl, isNewickWs c = true) :
+    singleTree (a ++ ';' :: bl) := by
+  unfold singleTree
+  rw [afterTree_prefix a bl ha, List.all_eq_true]
+  exact hbl
+
+theorem chunkGo_err (C : NewickCodec) (f : Nat) (c : Txt) (id : Nat) (hp : C.parse c = none) :
+    chunkGo C (f + 1) c id = ([⟨id, .err⟩], none) := by
+  simp [chunkGo, hp]
+
+theorem chunkGo_single (C : NewickCodec) (f : Nat) (c : Txt) (t : T) (id : Nat) (hp : C.parse c = some t)
+    (hs : singleTree c) : chunkGo C (f + 1) c id = ([⟨id, .ok t⟩], some (id + 1)) := by
+  simp only [singleTree] at hs
+  simp [chunkGo, hp, hs]
+
+/-- the first record of a chunk is the parser's answer on the chunk -/
+theorem chunkGo_head (C : NewickCodec) (f : Nat) (c : Txt) (id : Nat) :
+    headOut (chunkGo C (f + 1) c id).1 = (match C.parse c with | some t => .ok t | none => .err) := by
+  simp only [chunkGo]
+  cases C.parse c with
+  | none => rfl
+  | some t =>
+    simp only []
+    split <;> rfl
+
+/-- parse the chunks in order — every tree of a chunk (`chunkGo`); stop at the first error, which is
+    reported with its identifier; no chunk at all (id 0) is reported as an error; text left after the last
+    chunk is reported as an error with the next identifier -/
 def deliver (C : NewickCodec) (tl : Txt) : List Txt → Nat → List Rec
   | [], id => if id == 0 then [⟨0, .err⟩] else if tl.all isSpaceGo then [] else [⟨id, .err⟩]
   | c :: r, id =>
-    match C.parse c with
-    | none => [⟨id, .err⟩]
-    | some t => ⟨id, .ok t⟩ :: deliver C tl r (id + 1)
+    match (chunkGo C (c.length + 1) c id).2 with
+    | none => (chunkGo C (c.length + 1) c id).1
+    | some nid => (chunkGo C (c.length + 1) c id).1 ++ deliver C tl r nid
 
 theorem multiGo_eq_deliver (C : NewickCodec) (ls : List Txt) (acc : Txt) (id : Nat) :
     multiGo C ls acc id = deliver C (tailGo ls acc) (chunksGo ls acc) id := by
@@ -135,7 +174,9 @@ theorem multiGo_eq_deliver (C : NewickCodec) (ls : List Txt) (acc : Txt) (id : N
     simp only [multiGo, chunksGo, tailGo]
     split
     · simp only [deliver]
-      split <;> simp_all
+      cases (chunkGo C ((acc ++ l).length + 1) (acc ++ l) id).2 with
+      | none => rfl
+      | some nid => simp only []; rw [ih]
     · exact ih _ _
 
 theorem chunksGo_lines (ls : List Txt) (h : ∀ l ∈ ls, lastNonBlank l = ';') : chunksGo ls [] = ls := by
@@ -155,7 +196,7 @@ theorem tailGo_lines (ls : List Txt) (h : ∀ l ∈ ls, lastNonBlank l = ';') : 
     simp [ih (fun x hx => h x (by simp [hx]))]
 
 theorem deliver_ok (C : NewickCodec) (cs : List Txt) (ts : List T) (id : Nat)
-    (h : cs.map C.parse = ts.map some) (hne : cs ≠ [] ∨ id ≠ 0) :
+    (h : cs.map C.parse = ts.map some) (hs : ∀ c ∈ cs, singleTree c) (hne : cs ≠ [] ∨ id ≠ 0) :
     deliver C [] cs id = recsOfTrees ts id := by
   induction cs generalizing ts id with
   | nil =>
@@ -170,28 +211,29 @@ theorem deliver_ok (C : NewickCodec) (cs : List Txt) (ts : List T) (id : Nat)
     | nil => simp at h
     | cons t ts =>
       simp only [List.map_cons, List.cons.injEq] at h
-      simp only [deliver, h.1, recsOfTrees]
+      simp only [deliver, chunkGo_single C _ c t id h.1 (hs c (by simp)), recsOfTrees, List.singleton_append]
       congr 1
-      exact ih ts (id + 1) h.2 (Or.inr (by omega))
+      exact ih ts (id + 1) h.2 (fun x hx => hs x (by simp [hx])) (Or.inr (by omega))
 
 theorem deliver_err (C : NewickCodec) (tl : Txt) (cs : List Txt) (ts : List T) (bad : Txt) (rest : List Txt) (id : Nat)
-    (h : cs.map C.parse = ts.map some) (hb : C.parse bad = none) :
+    (h : cs.map C.parse = ts.map some) (hs : ∀ c ∈ cs, singleTree c) (hb : C.parse bad = none) :
     deliver C tl (cs ++ bad :: rest) id = recsOfTrees ts id ++ [⟨id + ts.length, .err⟩] := by
   induction cs generalizing ts id with
   | nil =>
     cases ts with
-    | nil => simp [deliver, hb, recsOfTrees]
+    | nil => simp [deliver, chunkGo_err C _ bad id hb, recsOfTrees]
     | cons _ _ => simp at h
   | cons c cs ih =>
     cases ts with
     | nil => simp at h
     | cons t ts =>
       simp only [List.map_cons, List.cons.injEq] at h
-      simp only [List.cons_append, deliver, h.1, recsOfTrees, List.length_cons]
-      congr 1
-      rw [ih ts (id + 1) h.2]
-      congr 3
-      omega
+      simp only [List.cons_append, deliver, chunkGo_single C _ c t id h.1 (hs c (by simp)), recsOfTrees,
+        List.length_cons]
+      rw [ih ts (id + 1) h.2 (fun x hx => hs x (by simp [hx]))]
+      have e : id + 1 + ts.length = id + (ts.length + 1) := by omega
+      rw [e]
+      rfl
 
 /- ## what the formats keep -/
 
@@ -272,7 +314,18 @@ theorem headOut_multiGo_chunk (C : NewickCodec) (ls : List Txt) (acc l : Txt)
     (h : (lastNonBlank (acc ++ l) == ';') = true) :
     headOut (multiGo C (l :: ls) acc 0) = outOf (C.parse (acc ++ l)) := by
   simp only [multiGo, h, if_true]
-  cases C.parse (acc ++ l) <;> rfl
+  have hh := chunkGo_head C (acc ++ l).length (acc ++ l) 0
+  cases hp : C.parse (acc ++ l) with
+  | none => simp [chunkGo, hp, headOut, outOf]
+  | some t =>
+    rw [hp] at hh
+    simp only [outOf]
+    split
+    · exact hh
+    · rename_i nid _
+      cases hr : (chunkGo C ((acc ++ l).length + 1) (acc ++ l) 0).1 with
+      | nil => rw [hr] at hh; simp [headOut] at hh
+      | cons r rs => rw [hr] at hh; simpa [headOut] using hh
 
 /-- once the buffer holds a ';', if the chunk ends at all it is the buffer extended by some text -/
 theorem chunk_ends (C : NewickCodec) (r : Txt) (semi nonempty : Bool) :
